@@ -483,6 +483,79 @@ Definition parse_imax_gen (empty : bool) (iv : option Z) : option bool := if emp
 Definition istop_values_gen : list string := [{"; ".join('"%s"' % x for x in stops)}].''')
 
 
+# ------------------------------------------------------------------------------------------------ #program directives
+def gen_parts(out):
+    """transformers/program.py: ProgramTransformer.visit_Program - straight-line code over prg.name / self.__final / self.__part with one-armed
+    ifs, translated into a chain of lets (as for str_location); result: the name the directive is rewritten to, the final flag, the part in force"""
+    fn = find_fun(parse('telingo/transformers/program.py'), 'visit_Program', 'ProgramTransformer')
+    body = [x for x in fn.body if not (isinstance(x, ast.Expr) and isinstance(x.value, ast.Constant))]
+    var = {'prg.name': ('name', 'str'), 'self.__final': ('final', 'bool'), 'self.__part': ('part', 'str')}
+    ver = {'name': 0, 'final': 0, 'part': 0}       # version 0 = the value on entry (arguments of the generated function)
+    lets = []
+
+    def cur(v):
+        return v if ver[v] == 0 else '%s%d' % (v, ver[v])
+
+    def sval(e):
+        if isinstance(e, ast.Constant) and isinstance(e.value, str):
+            return coq_str(e.value)
+        u = ast.unparse(e)
+        if u in var and var[u][1] == 'str':
+            return cur(var[u][0])
+        raise Unsupported('visit_Program: string expression ' + u)
+
+    def bval(e):
+        u = ast.unparse(e)
+        if u in var and var[u][1] == 'bool':
+            return cur(var[u][0])
+        if isinstance(e, ast.Constant) and isinstance(e.value, bool):
+            return 'true' if e.value else 'false'
+        if isinstance(e, ast.UnaryOp) and isinstance(e.op, ast.Not):
+            return '(negb %s)' % bval(e.operand)
+        if isinstance(e, ast.BoolOp):
+            return '(' + (' && ' if isinstance(e.op, ast.And) else ' || ').join(bval(x) for x in e.values) + ')'
+        if isinstance(e, ast.Compare) and len(e.ops) == 1 and isinstance(e.ops[0], (ast.Eq, ast.NotEq)):
+            r = '(String.eqb %s %s)' % (sval(e.left), sval(e.comparators[0]))
+            return r if isinstance(e.ops[0], ast.Eq) else '(negb %s)' % r
+        raise Unsupported('visit_Program: condition ' + u)
+
+    def assign(st, guard=None):
+        if not (isinstance(st, ast.Assign) and len(st.targets) == 1 and ast.unparse(st.targets[0]) in var):
+            raise Unsupported('visit_Program: statement ' + ast.unparse(st))
+        v, t = var[ast.unparse(st.targets[0])]
+        val = bval(st.value) if t == 'bool' else sval(st.value)
+        if guard is not None:
+            val = '(if %s then %s else %s)' % (guard, val, cur(v))
+        ver[v] += 1
+        lets.append('let %s := %s in' % (cur(v), val))
+
+    appends = []
+    if not (isinstance(body[-1], ast.Return) and ast.unparse(body[-1].value) == 'prg'):
+        raise Unsupported('visit_Program: final return')
+    for st in body[:-1]:
+        u = ast.unparse(st)
+        if u.startswith('prg.parameters.append('):
+            appends.append(u)
+        elif isinstance(st, ast.If):
+            if st.orelse:
+                raise Unsupported('visit_Program: if with else')
+            g = bval(st.test)
+            for x in st.body:
+                assign(x, g)
+        else:
+            assign(st)
+    if appends != ['prg.parameters.append(_ast.Id(prg.location, _tf.g_time_parameter_name))', 'prg.parameters.append(_ast.Id(prg.location, _tf.g_time_parameter_name_alt))']:
+        raise Unsupported('visit_Program: parameters ' + repr(appends))
+    out.append('(* ---- transformers/program.py: ProgramTransformer.visit_Program ---- *)\n'
+               'Definition visit_program_gen (name : string) (final : bool) (part : string) : string * bool * string :=\n  ' + '\n  '.join(lets) + '\n  (%s, %s, %s).' % (cur('name'), cur('final'), cur('part')))
+    # the part in force before the first directive is seen (ProgramTransformer.__init__)
+    init = find_fun(parse('telingo/transformers/program.py'), '__init__', 'ProgramTransformer')
+    ini = {ast.unparse(x.targets[0]): x.value for x in init.body if isinstance(x, ast.Assign) and len(x.targets) == 1}
+    if 'self.__final' not in ini or 'self.__part' in ini:
+        raise Unsupported('ProgramTransformer.__init__: __final is set there, __part is not (it exists only after the first directive)')
+    out.append('(* ProgramTransformer.__init__: the final flag before the first directive (there is no part before the first directive) *)\nDefinition initial_final_gen : bool := %s.' % bval(ini['self.__final']))
+
+
 # ------------------------------------------------------------------------------------------------ str_location
 def gen_loc(out):
     """transformers/transformer.py: str_location - straight-line code over the flags ret / dash / eq with one-armed ifs, translated statement by
@@ -1571,6 +1644,7 @@ GROUPS = {
     'transformers': ('FromTransformers.v', [gen_transformers], ['GenPrelude']),
     'app': ('FromApp.v', [gen_app], ['GenPrelude']),
     'loc': ('FromLoc.v', [gen_loc], ['GenPrelude']),
+    'parts': ('FromParts.v', [gen_parts], ['GenPrelude']),
     'tables': ('FromTables.v', [gen_tables], ['GenPrelude']),
     'theory': ('FromTheory.v', [gen_theory], ['GenPrelude', 'TheoryPrelude']),
     'dynamic': ('FromDynamic.v', [gen_dynamic], ['GenPrelude', 'TheoryPrelude', 'DynPrelude']),
